@@ -6,7 +6,7 @@
    (Spec/EmptySpec.v), [wfn] / [wtb] / [gov] as in Properties/C08.v. *)
 From Coq Require Import List Bool String Ascii ZArith Arith.
 From Verif Require Import Util Ints Node GoSrc Value Outcome InsReset InsCopy EmptySpec LCSound ResetCopySound CopyAlloc
-  Deq DeqSpec DeqKeys DeqPaths DeqMain CopyEqual Shapes EnumVal GenUnits GenC10 GenC08 GenC06.
+  Deq DeqSpec DeqKeys DeqPaths DeqMain CopyEqual Shapes EnumVal GenUnits GenC10 GenC08 GenC06 GenC06b.
 Import ListNotations.
 
 (* Copy returns nil and a value structurally identical to the source up to nil-versus-empty
@@ -112,7 +112,34 @@ Example C06_equal_inhabited :
           (supported_units 0) = true.
 Proof. vm_compute. reflexivity. Qed.
 
+(* The same two non-vacuity statements on the check's own units (Gen/GenC06b.v: maps whose values are structs held
+   BY VALUE that own pointers, slices and maps) and the values of stream c06b (variants and shifted variants): every
+   unit is in the supported fragment and accepted by both developments, every value satisfies the hypotheses of
+   C06_structure and C06_equal (no pointer keys among them), the stream's prediction is C05's verdict. *)
+Example C06_own_units_inhabit :
+  forallb (fun u => let n := root_node u in
+                    sup_root (snd u) && wfn n && wfroot n &&
+                    forallb (fun v => wtb n v && gov n v && finv v && kok v && npk n v && negb (has_ptrkeys n v) &&
+                                      match deep_equal n false (APtr (Some v)) (APtr (Some (cpy n (zero_val n) v))) with
+                                      | inl b => b && String.eqb (deq3 n v) "1"
+                                      | inr _ => false
+                                      end) (GenC06b.values n) &&
+                    is_blank (blank_of n (last (variants n) (VInt 0))) && wtb n (blank_of n (last (variants n) (VInt 0))))
+          GenC06b.bunits = true.
+Proof. vm_compute. reflexivity. Qed.
+
 Local Open Scope string_scope.
+(* a map entry held by value whose members are pointers: every pointer target of the copy is a fresh allocation
+   (a per-entry temporary that started as a shallow copy of the ranged value would keep the source's) *)
+Example C06_by_value_entry_allocates :
+  let n := root_node ("V", TMap (TScalar (SInt KInt32)) Shapes.pflat) in
+  let pt := VStruct [VFloat (Floats.norm64 3 (-1)); VInt 5; VBool true] in
+  let v := VMap false [(VInt 1, VStruct [VPtr (Some (VInt 5)); VPtr (Some pt); VInt 7])] in
+  wfn n = true /\ wtb n v = true /\ gov n v = true /\
+  cpy n (zero_val n) v = v /\
+  cpy_allocs n (zero_val n) v = [OFresh; OFresh; OFresh].
+Proof. vm_compute. repeat split; reflexivity. Qed.
+
 (* Known (findings/C06.txt): the generated DeepEqual does not report a faithful copy equal when the
    value holds a non-empty map with pointer keys (keys are looked up by identity; C05 records this as a
    decision: C05_refuted_copy_equal_pointer_keys).  [deq3] is the verdict the stream predicts - and
